@@ -119,7 +119,8 @@ pub fn run_tamper(args: &[String]) {
     if trace_out.is_some() {
         let mut seen: std::collections::BTreeSet<(usize, String, &'static str)> = Default::default();
         for j in jobs.iter_mut() {
-            if j.kind != "plus1" && j.kind != "delete" { continue; }
+            // (hi160: a message whose low 160 bits are unchanged must still be absorbed whole)
+            if j.kind != "plus1" && j.kind != "delete" && !(j.kind == "hi160" && path_str(&j.path).starts_with("unsent")) { continue; }
             let cls = if j.kind == "delete" { class_of(&j.path[..j.path.len() - 1].to_vec()) + "[]" } else { class_of(&j.path) };
             if seen.insert((j.subj, cls, j.kind)) { j.trace = true; }
         }
@@ -306,6 +307,17 @@ pub fn recipes(subs: &[Subject], rng: &mut Rng, numbers_everywhere: bool) -> Vec
                 e.push((vec![Seg::Key("witness".into()), Seg::Key("fri_witness".into()), Seg::Key("layers".into())], Edit::DupLastN(m)));
                 out.push(Recipe { subj: si, label: format!("redeclare:log_trace+{d},{m} more FRI layers"), edits: e });
             }
+        }
+        // the friendly-layer count re-declared consistently everywhere (top level and every vector configuration): nothing bounds it
+        for k in [26u64, 33, 40] {
+            let v = hexv(Felt::TWO.pow(k));
+            let mut e: Vec<(Path, Edit)> = vec![(cfg(&["n_verifier_friendly_commitment_layers"]), Edit::Set(v.clone()))];
+            for t in [vec!["traces", "original"], vec!["traces", "interaction"], vec!["composition"]] {
+                let mut p = cfg(&t); p.push(Seg::Key("vector".into())); p.push(Seg::Key("n_verifier_friendly_commitment_layers".into()));
+                e.push((p, Edit::Set(v.clone())));
+            }
+            for i in 0..n_inner { let mut p = cfg(&["fri", "inner_layers"]); p.push(Seg::Idx(i)); p.push(Seg::Key("vector".into())); p.push(Seg::Key("n_verifier_friendly_commitment_layers".into())); e.push((p, Edit::Set(v.clone()))); }
+            out.push(Recipe { subj: si, label: format!("redeclare:n_verifier_friendly_commitment_layers=2^{k}"), edits: e });
         }
         // segment lengths at extreme values (stop_ptr = begin_addr + X), alone and with the execution segment at the top of the address range
         let nseg = s.proof["public_input"]["segments"].as_array().map(|a| a.len()).unwrap_or(0);
